@@ -47,7 +47,34 @@ def decL : List Char → List Char
     | _, _ => '%' :: decL (a :: b :: rest)
   | c :: rest => c :: decL rest
 
-def dec (s : String) : String := String.ofList (decL s.toList)
+/-- `*<n>*<c>` (a raw `*` is never produced by `enc`): `n` copies of the character `c` — long values without long inputs -/
+def repMacro? (cs : List Char) : Option (List Char) :=
+  match cs with
+  | '*' :: rest =>
+    let ds := rest.takeWhile Char.isDigit
+    match rest.drop ds.length with
+    | ['*', c] =>
+      if ds.isEmpty then none else
+      let n := ds.foldl (fun a d => a * 10 + (d.toNat - 48)) 0
+      if n ≤ 4194304 then some (List.replicate n c) else none
+    | _ => none
+  | _ => none
+
+def dec (s : String) : String :=
+  match repMacro? s.toList with
+  | some l => String.ofList l
+  | none => String.ofList (decL s.toList)
+
+/-- values longer than this are printed abbreviated by the recorder (`c20lib.EncV`) -/
+def longText : Nat := 300
+
+/-- a message or metadata VALUE as the recorder prints it: `enc`, but a value longer than `longText` bytes becomes
+`LONG<length>.<sum of its bytes mod 65521>.<enc of its first 8 bytes>` -/
+def encV (s : String) : String :=
+  let cs := s.toList
+  if cs.length ≤ longText then enc s
+  else "LONG" ++ toString cs.length ++ "." ++ toString (cs.foldl (fun a c => (a + c.toNat) % 65521) 0) ++ "." ++
+    enc (String.ofList (cs.take 8))
 
 /-! ### method table -/
 
@@ -97,6 +124,7 @@ inductive PVal where
   | b (t : String)   -- JSON bool
   | z                -- null
   | o                -- {}
+  | l                -- []
   | other            -- anything the model does not predict
   deriving Repr
 
@@ -128,12 +156,14 @@ def oddNumeric (t : String) : Bool :=
 /-- `some none` = accepted and left at the default (omitted on the wire); `none` = rejected (400) -/
 def convert (k : FKind) (v : PVal) : Option (Option String) :=
   match k, v with
-  | .str, .s t => some (if t.isEmpty then none else some ("s." ++ enc t))
+  | .str, .s t => some (if t.isEmpty then none else some ("s." ++ encV t))
   | .str, .z => some none
+  | .str, .l => some none   -- an empty JSON array leaves a scalar field at its default (library behaviour, as observed)
   | .str, _ => none
   | .i64, .n t => (intLit? t).map fun i => if i == 0 then none else some ("n." ++ toString i)
   | .i64, .s t => (intLit? t).map fun i => if i == 0 then none else some ("n." ++ toString i)
   | .i64, .z => some none
+  | .i64, .l => some none
   | .i64, _ => none
 
 def findField (fs : List Field) (name : String) : Option Field :=
@@ -172,7 +202,7 @@ def insertSorted (x : String × String) : List (String × String) → List (Stri
 def sortByKey (l : List (String × String)) : List (String × String) := l.foldr insertSorted []
 
 def mdText (md : List (String × String)) : String :=
-  String.intercalate "," ((sortByKey (md.map fun (k, v) => (k.toLower, v))).map fun (k, v) => enc k ++ ":" ++ enc v)
+  String.intercalate "," ((sortByKey (md.map fun (k, v) => (k.toLower, v))).map fun (k, v) => enc k ++ ":" ++ encV v)
 
 def insertStr (x : String) : List String → List String
   | [] => [x]
@@ -198,8 +228,38 @@ def tokenUser (v : String) : Option Nat := (stripPrefix? "s.TOK" v).bind userOfT
 
 def numVal (v : String) : Option Int := (stripPrefix? "n." v).bind intLit?
 
-/-- gRPC status of the example service as the protocol code the gun reports (OK ↦ 200, InvalidArgument ↦ 400) -/
-def serverCode (method : String) (m : List (String × String)) : Nat :=
+/-- gRPC status code number ↦ the protocol code the guns report (`ConvertGrpcStatus`; regenerated from the source and
+bridged: `Bridge.C20.statusTable_eq`, `statusDefault_eq`) -/
+def statusTable : List (Nat × Nat) :=
+  [(0, 200), (1, 499), (3, 400), (4, 504), (5, 404), (6, 409), (7, 403), (8, 429), (9, 400), (10, 409), (11, 400),
+   (12, 501), (14, 503), (16, 401)]
+
+def statusDefault : Nat := 500
+
+def convertStatus (code : Nat) : Nat := ((statusTable.find? (·.1 == code)).map (·.2)).getD statusDefault
+
+/-- fault injection by the recording server (`c20lib.FaultKey`): a call whose metadata has the key `x-fault` (any case:
+`metadata.New` lower-cases keys) with a canonical decimal status code number 1..255 as its value is recorded and then
+refused with that gRPC status, without running the service's handler -/
+def natLit? : List Char → Option Nat
+  | [] => none
+  | cs => if cs.all Char.isDigit && (cs.length == 1 || cs.head? != some '0') then
+      some (cs.foldl (fun a c => a * 10 + (c.toNat - 48)) 0) else none
+
+def faultOf (md : List (String × String)) : Option Nat :=
+  match md.find? (fun (k, _) => k.toList.map Char.toLower == ['x', '-', 'f', 'a', 'u', 'l', 't']) with
+  | some (_, v) =>
+    match natLit? v.toList with
+    | some n => if 1 ≤ n && n ≤ 255 then some n else none
+    | none => none
+  | none => none
+
+/-- the protocol code the gun reports for a call that reached the server: the injected fault's status if the call carries
+one, else the example service's reply (OK ↦ 200, InvalidArgument ↦ 400), through `ConvertGrpcStatus` -/
+def serverCode (method : String) (m : List (String × String)) (md : List (String × String)) : Nat :=
+  match faultOf md with
+  | some f => convertStatus f
+  | none =>
   match method with
   | "Auth" =>
     let l := fieldVal m "login"
@@ -259,7 +319,7 @@ def shootEntry (tmo : Nat) (e : Entry) : Outcome :=
     | none => { calls := [], samples := [sampleText e.tag 400] }
     | some vals =>
       let msg := canonMsg fs vals
-      { calls := [callText m msg (mdText e.md) tmo], samples := [sampleText e.tag (serverCode m msg)] }
+      { calls := [callText m msg (mdText e.md) tmo], samples := [sampleText e.tag (serverCode m msg e.md)] }
 
 /-- state of a plain gun that survives a shot: how many shots it has made and which stub `Bind` gave it -/
 structure GunState where
@@ -384,6 +444,8 @@ structure CallDef where
   /-- field name, value kind (`s` | `n` | other token kinds verbatim), template of the value text -/
   payload : List (String × String × T)
   pre : Bool
+  /-- status code demanded by an `assert/response` postprocessor, 0 = none: a call answered otherwise ends the shot -/
+  assert : Nat := 0
   deriving Repr
 
 structure ScenDef where
@@ -451,6 +513,7 @@ def pvalOf (kind : String) (text : String) : PVal :=
   | "b" => .b text
   | "z" => .z
   | "o" => .o
+  | "l" => .l
   | _ => .other
 
 /-- per-shot variables that survive from step to step -/
@@ -475,6 +538,9 @@ def mkVars (u : Option String) (sv : ShotVars) (g : String) : Vars Char :=
 /-- some template of the call (payload or metadata) cannot be parsed or executed -/
 def callBad (cd : CallDef) : Bool :=
   (cd.md.map (·.2) ++ cd.payload.map (·.2.2)).any fun t => t.any fun p => match p with | Piece.var m => m == vBad | _ => false
+
+/-- the step's `assert/response` postprocessor rejects the reply -/
+def assertFails (cd : CallDef) (code : Nat) : Bool := cd.assert != 0 && cd.assert != code
 
 /-- the auth results visible to a step: none inside the step named `auth` itself -/
 def svFor (cd : CallDef) (sv : ShotVars) : ShotVars := if cd.name == "auth" then { a := none, i := none } else sv
@@ -507,7 +573,7 @@ def shootStep (v : Variant) (c : Cfg) (gun : Nat) (scn : String) (cd : CallDef) 
     | some vals =>
       let msg := canonMsg fs vals
       let md := (cd.md.map (·.1)).zip (sent.map String.ofList)
-      let code := serverCode m msg
+      let code := serverCode m msg md
       let sv' : ShotVars :=
         if cd.name == "auth" then
           if m == "Auth" && code == 200 then
@@ -515,7 +581,10 @@ def shootStep (v : Variant) (c : Cfg) (gun : Nat) (scn : String) (cd : CallDef) 
             { a := some ("TOK" ++ login), i := some login }
           else { a := none, i := none }
         else sv
-      .ok w' sv' { calls := [callText m msg (mdText md) c.tmo], samples := [sampleText tag code] }
+      -- an `assert/response` postprocessor that does not get its status code returns an error: the shot ends here
+      -- (the call was made and its sample is reported)
+      if assertFails cd code then .failed w' { calls := [callText m msg (mdText md) c.tmo], samples := [sampleText tag code] }
+      else .ok w' sv' { calls := [callText m msg (mdText md) c.tmo], samples := [sampleText tag code] }
 
 inductive ShotResult where
   | done (w : World) (o : Outcome)
